@@ -169,6 +169,9 @@ impl Outcome {
     pub fn distinct_nontrivial(&self) -> u64 {
         self.distinct.len() as u64 + self.distinct_extra
     }
+    pub fn add_distinct(&mut self, n: u64) {
+        self.distinct_extra += n;
+    }
     pub fn assume(&mut self, s: &str) {
         self.assumptions.push(s.to_string());
     }
